@@ -215,6 +215,15 @@ def _package_helper(pkg, file, cls, call):
     fn = call.func
     if isinstance(fn, ast.Name) and (file, fn.id) in pkg.functions:
         return pkg.functions[(file, fn.id)], None
+    if isinstance(fn, ast.Name) and fn.id in pkg.imports.get(file, {}):
+        # .. or imported from another module of the package (`from .configuration import _copy_or_new`)
+        from ..ratemodel import RateModel
+        try:
+            tgt = RateModel.imported_from(type("_P", (), {"pkg": pkg})(), file, fn.id)
+        except Exception:
+            tgt = None
+        if tgt is not None and tgt in pkg.functions:
+            return pkg.functions[tgt], None
     if cls and isinstance(fn, ast.Attribute) and isinstance(fn.value, ast.Name) and fn.value.id in ("self", "cls") and cls in pkg.classes:
         _, callee = pkg.resolve(cls, fn.attr)
         if callee is not None:
